@@ -8,6 +8,7 @@ import (
 	"reflect"
 	"strconv"
 	"strings"
+	"unicode/utf8"
 )
 
 var imports []string
@@ -398,7 +399,7 @@ func (s *JavaFullListener) EnterMethodDeclaration(ctx *parser.MethodDeclarationC
 		StartLine:         ctx.GetStart().GetLine(),
 		StartLinePosition: ctx.Identifier().GetStart().GetColumn(), // different
 		StopLine:          ctx.GetStop().GetLine(),
-		StopLinePosition:  ctx.Identifier().GetStart().GetColumn() + len(name),
+		StopLinePosition:  ctx.Identifier().GetStart().GetColumn() + utf8.RuneCountInString(name), // columns count characters
 	}
 
 	method := &core_domain.CodeFunction{
